@@ -2,7 +2,7 @@
    printable, reparsable query compiles to its normal form; what the parser produces is
    reparsable and (up to the float condition) printable. *)
 From Coq Require Import ZArith List Bool Lia.
-From JP Require Import Base Json PyStr PyJsonStr Syntax Lex Parse Serialize TokPrint Printable Gate Reparsable.
+From JP Require Import Base Json PyStr PyJsonStr Syntax Lex Parse Serialize TokPrint Printable Gate Reparsable NormDomain.
 From JP Require Import ParseEqns GateLemmas ParseSpec ReparseLemmas TokPrintEqns StringRoundTrip
                        PrintParseBase PrintParseAtoms LexShapes PrintableSpec.
 Import ListNotations.
@@ -1017,12 +1017,30 @@ Proof.
   rewrite Hc in H. exact (proj1 H).
 Qed.
 
+Theorem compiled_printable :
+  forall (E : env) re_ok (text : ustr) (q : query),
+    compile E re_ok text = Ok q ->
+    in_range (e_min_index E) (e_max_index E) 1%Z = true -> printable re_ok q = true.
+Proof.
+  intros E re_ok text q Hc H1. unfold compile in Hc.
+  pose proof (compile_tokens_post E re_ok H1 (tokenize E text) (tokenize_ok2 E text)) as H.
+  rewrite Hc in H. exact (proj1 (proj2 H)).
+Qed.
+
+(* every float literal of a compiled query has a repr that reads back as the same float *)
+Theorem compiled_floats_stable :
+  forall (E : env) re_ok (text : ustr) (q : query),
+    compile E re_ok text = Ok q ->
+    in_range (e_min_index E) (e_max_index E) 1%Z = true -> NormDomain.floats_stable q = true.
+Proof.
+  intros E re_ok text q Hc H1. unfold compile in Hc.
+  pose proof (compile_tokens_post E re_ok H1 (tokenize E text) (tokenize_ok2 E text)) as H.
+  rewrite Hc in H. exact (proj2 (proj2 H)).
+Qed.
+
+(* kept under its old name and statement (the float premise is no longer needed) *)
 Theorem compiled_printable_partial :
   forall (E : env) re_ok (text : ustr) (q : query),
     in_range (e_min_index E) (e_max_index E) 1%Z = true ->
     compile E re_ok text = Ok q -> floats_ok q = true -> printable re_ok q = true.
-Proof.
-  intros E re_ok text q H1 Hc. unfold compile in Hc.
-  pose proof (compile_tokens_post E re_ok H1 (tokenize E text) (tokenize_ok2 E text)) as H.
-  rewrite Hc in H. exact (proj2 H).
-Qed.
+Proof. intros E re_ok text q H1 Hc _. exact (compiled_printable E re_ok text q Hc H1). Qed.
